@@ -100,10 +100,12 @@ class Conf:
                             self.coredata.optstore.update_project_options(oi.options, sub)
                             self.coredata.options_files[sub] = (opfile, ophash)
                 else:
+                    # Only the top-level project lives in source_dir; a subproject
+                    # must never pick up the option file of the top-level project.
                     opfile = os.path.join(self.source_dir, 'meson.options')
                     if not os.path.exists(opfile):
                         opfile = os.path.join(self.source_dir, 'meson_options.txt')
-                    if os.path.exists(opfile):
+                    if sub == '' and os.path.exists(opfile):
                         oi = OptionInterpreter(self.coredata.optstore, sub)
                         oi.process(opfile)
                         self.coredata.optstore.update_project_options(oi.options, sub)
